@@ -339,6 +339,17 @@ def r1_reader_scope(ctx: Ctx):
     t = norm(vf, 100000)
     ctx.check('ctx.props = dict(props)' in t, FRONT, vf, '_FPCore2FPy._visit_function', 'function-level properties stay in force for the body (copied before `precision` is removed from the metadata)',
               'the body shares the dictionary from which `precision` is deleted')
+    # the function's own context: built whenever a top-level property selects one -- :round alone rounds binary64 (the
+    # default precision) its way; only a core with none of them is read as a function without a context
+    from ..minipy import Interp
+    builds = [s for s in walk_no_nested(vf) if isinstance(s, ast.If) and any(isinstance(x, ast.Assign) and 'FPCoreContext(**props)' in norm(x) for x in ast.walk(s))
+              and any(isinstance(x, (ast.Assign, ast.AnnAssign)) and norm(getattr(x, 'target', None) or x.targets[0]) == 'ctx_val' and norm(x.value) == 'None' for x in s.orelse)]
+    if len(builds) != 1:
+        raise ShapeError('_visit_function: the construction of the function context was not found')
+    for props_, want in (({'precision': 'binary32'}, True), ({'round': 'toPositive'}, True), ({'precision': 'binary32', 'round': 'toZero'}, True), ({'name': 'f'}, False), ({}, False)):
+        got = bool(Interp({}).ev(builds[0].test, {'props': dict(props_)}))
+        ctx.check(got == want, FRONT, builds[0], '_FPCore2FPy._visit_function', f'top-level properties {sorted(props_) or "(none)"}: the function {"gets" if want else "has no"} context of its own',
+                  f'the test answers {got}: (FPCore (x y) :round toPositive (/ x y)) is read back rounding to nearest')
     # literals are rounded under the active context (FPCore constants are rounded)
     for m in ('_visit_decnum', '_visit_hexnum', '_visit_integer', '_visit_rational', '_visit_digits'):
         f = ctx.fn(FRONT, f'_FPCore2FPy.{m}')
@@ -809,6 +820,8 @@ RULES = [
 from ..selftest import Mutant  # noqa: E402
 
 MUTANTS = [
+    Mutant('lone-round-property-dropped', FRONT, "        if any(k in props for k in ('precision', 'round', 'overflow')):", "        if 'precision' in props:", 'C12.R1',
+           'finding F99 before its repair: (FPCore (x y) :round toPositive (/ x y)) read back rounding to nearest'),
     Mutant('range-count-quotient-rounded-to-an-integer', BACK, "                fpc.Ceil(fpc.Ctx({ 'precision': 'real' }, fpc.Div(fpc.Sub(stop_expr, start_expr), step_expr)))))],",
            "                fpc.Ceil(fpc.Div(fpc.Sub(stop_expr, start_expr), step_expr))))],", 'C12.W4', 'finding F82 before its repair: range(0, 5, 2) has two elements'),
     Mutant('range-count-floor', BACK, "                fpc.Ceil(fpc.Ctx({ 'precision': 'real' }, fpc.Div(", "                fpc.Floor(fpc.Ctx({ 'precision': 'real' }, fpc.Div(", 'C12.W4'),
